@@ -194,3 +194,99 @@ def convert_value_type(ctx):
     return [{"name": "custom:c20-convert-value-type/word-list", "kind": "bounded", "verdict": "refuted" if bad else "passed",
              "tool": "native", "budget": f"{len(WORDS)} words", "cases": len(WORDS), "note": "; ".join(bad)[:600],
              "solver": "native", "ms": round((time.time() - t0) * 1000, 1)}]
+
+
+# =================================================================== pre-existing settings STAY IN EFFECT after the merge
+# Property text: "every pre-existing setting keeps its value and stays in effect". Keeping the value in the YAML text is
+# not enough: what counts is the configuration object each rule builds from the loaded file. Differential check at that
+# observation point, for EVERY rule class of EVERY linter package and EVERY documented spelling of its section name
+# (contracts/c05_keys.py: DOCUMENTED; hyphen and underscore form): an existing file that sets the section to non-default
+# values (enabled flipped, every int option + 1, every other bool flipped) is merged with the template; the rule's own
+# config loader (_load_config / _get_config on a context carrying the loaded, normalised configuration) must build the
+# same config object before and after the merge, for a python, a typescript and a rust file.
+@custom("c20-settings-stay-in-effect", props=["C20"])
+def settings_stay_in_effect(ctx):
+    import dataclasses
+    import inspect
+    import types
+    import yaml
+    from contracts.c05_keys import DOCUMENTED, spellings
+    repo = ctx["repo"]
+    t0 = time.time()
+    obs = []
+
+    def ob(name, ok, note=""):
+        obs.append({"name": f"custom:c20-settings-stay-in-effect/{name}", "kind": "custom", "verdict": "discharged" if ok else "refuted",
+                    "solver": "native-differential", "ms": round((time.time() - t0) * 1000, 1), "note": "" if ok else note[:600],
+                    "carries": True, "witness_confirmed": not ok, "witness": None if ok else note[:600]})
+
+    try:
+        cfg, mrg = _repo_modules(repo)
+        parser = importlib.import_module("src.core.config_parser")
+        sections = mrg.extract_linter_sections(cfg._generate_config_content("standard"))
+    except BaseException as e:  # noqa
+        ob("import", False, f"cannot import from {repo}: {e!r}")
+        return obs
+
+    def load(rule, text, lang):
+        md = parser._normalize_config_keys(yaml.safe_load(text) or {})
+        c = types.SimpleNamespace(metadata=md, language=lang, file_path=None, file_content="")
+        fn = getattr(rule, "_load_config", None) or getattr(rule, "_get_config", None)
+        return fn(c) if fn is not None else None
+
+    failing = set()
+    for pkg, names in sorted(DOCUMENTED.items()):
+        rules = []
+        d = os.path.join(repo, "src", "linters", pkg)
+        for fn in sorted(os.listdir(d)) if os.path.isdir(d) else []:
+            if not fn.endswith(".py") or fn.startswith("_"):
+                continue
+            try:
+                mod = importlib.import_module(f"src.linters.{pkg}.{fn[:-3]}")
+            except BaseException:  # noqa
+                continue
+            for c in vars(mod).values():
+                if inspect.isclass(c) and c.__module__ == mod.__name__ and isinstance(inspect.getattr_static(c, "rule_id", None), property) \
+                        and (hasattr(c, "_load_config") or hasattr(c, "_get_config")) and not inspect.isabstract(c):
+                    rules.append(c)
+        for rule_cls in rules:
+            try:
+                rule = rule_cls()
+                default = load(rule, "{}", "python")
+            except BaseException as e:  # noqa
+                ob(f"{pkg}/{rule_cls.__name__}", False, f"cannot build the rule / its default config: {e!r}")
+                continue
+            body = {"enabled": False}
+            if dataclasses.is_dataclass(default):
+                for f in dataclasses.fields(default):
+                    v = getattr(default, f.name)
+                    if isinstance(v, bool):
+                        body[f.name] = not v
+                    elif isinstance(v, int):
+                        body[f.name] = v + 1
+            for section in names:
+                for s in spellings(section):
+                    existing = yaml.dump({s: body}, default_flow_style=False, sort_keys=False)
+                    try:
+                        missing = mrg.identify_missing_sections(yaml.safe_load(existing), list(sections.keys()))
+                        merged = mrg.merge_config_sections(existing, mrg._build_missing_sections_dict(missing, sections))
+                        bad = ""
+                        for lang in ("python", "typescript", "rust"):
+                            before, after = load(rule, existing, lang), load(rule, merged, lang)
+                            if before != after:
+                                bad = (f"`{s}:` section {body} -- {rule_cls.__name__} built {before} before init-config's merge and "
+                                       f"{after} after it ({lang} file; sections added: {missing})")
+                                break
+                        ob(f"{rule_cls.__name__}/{s}/{pkg}:{section}", not bad, bad)
+                        if bad:
+                            failing.add((pkg, section))
+                    except BaseException as e:  # noqa
+                        ob(f"{rule_cls.__name__}/{s}/{pkg}:{section}", False, f"{type(e).__name__}: {e}")
+                        failing.add((pkg, section))
+    ob("adjusted", failing == SHADOWED, f"finding-adjusted: the sections whose settings do not survive the merge are exactly "
+                                        f"{sorted(SHADOWED)}; found {sorted(failing)}")
+    return obs
+
+
+# known finding C20-improper-logging-shadowed-by-print-statements: (package, documented section) pairs that are shadowed
+SHADOWED = {("print_statements", "improper-logging")}
